@@ -124,6 +124,16 @@ theorem slice_of_le {b : Bytes} {lo hi : Nat} (h1 : lo ≤ hi) (h2 : hi ≤ b.le
     slice b lo hi = .ok ((b.take hi).drop lo) := by
   simp [slice, h1, h2]
 
+theorem take_drop_mid (pre v tail : Bytes) :
+    ((pre ++ (v ++ tail)).take (pre.length + v.length)).drop pre.length = v := by
+  rw [List.take_length_add_append, List.drop_left, List.take_left]
+
+theorem slice_mid (pre v tail : Bytes) : slice (pre ++ (v ++ tail)) pre.length (pre.length + v.length) = .ok v := by
+  rw [slice_of_le (by omega) (by simp), take_drop_mid]
+
+theorem sliceFrom_append (pre rest : Bytes) : sliceFrom (pre ++ rest) pre.length = .ok rest := by
+  rw [sliceFrom_of_le (by simp), List.drop_left]
+
 /-! ### padding -/
 theorem pad4_eq (n : Nat) : pad4 n = (4 - n % 4) % 4 := by
   unfold pad4 Gen.getPadding
